@@ -260,3 +260,10 @@ def run(chk):
     from . import e2e
     chk.guard("R01.6", "e2e", e2e.check, chk, F, "R01.6", "sound",
               "end to end on a bounded family (~60 scripts x every subset of their keys x preimage sets x locks met or not, both modes): the template the satisfier returns uses only owned assets and its witness makes the specification's script succeed (reference execution) under the locks the template reports")
+    # when a PSBT is finalized the locks the satisfier may rely on are answered by PsbtInputSatisfier::check_older /
+    # check_after from the transaction: they must be the input's own BIP-68 / BIP-65 conditions, or a witness is returned
+    # that OP_CSV / OP_CLTV refuse (rule shared with C14)
+    from . import c14
+    from ..report import RuleAlias
+    chk.guard("R01.7", "psbt-locks", c14.check_locks, RuleAlias(chk, {"R14.1": "R01.7"}, "the locks a PSBT finalization "
+              "relies on are the spent input's own"), F)
